@@ -62,7 +62,7 @@ JudgeEvent(st, ev, y, forbidden, keepFunctions) ==
     [] OTHER -> Fail(st, "unknown event " \o ev.e)
 
 \* ---- darklua's name generator (transcription of RenameProcessor).  Gen = the permutator's stream (a prefix of it).
-Gen == <<"a", "b", "c", "d", "e", "f", "g", "h", "i", "j", "k", "l", "m", "n", "o", "p", "q", "r", "s", "t", "u", "v", "w", "x", "y", "z">>
+Gen == <<"a", "b", "c", "d", "e", "f", "g", "h", "i", "j", "k", "l", "m", "n", "o", "p", "q", "r", "s", "t", "u", "v", "w", "x", "y", "z", "A", "B", "C", "D", "E", "F", "G", "H", "I", "J", "K", "L", "M", "N", "O", "P", "Q", "R", "S", "T", "U", "V", "W", "X", "Y", "Z", "_">>
 GenIndex(n) == IF \E i \in 1..Len(Gen) : Gen[i] = n THEN CHOOSE i \in 1..Len(Gen) : Gen[i] = n ELSE 1000
 RECURSIVE NextFree(_, _)
 NextFree(k, avoid) == IF k > Len(Gen) THEN k ELSE IF Gen[k] \in avoid THEN NextFree(k + 1, avoid) ELSE k
